@@ -1,12 +1,13 @@
 //! C07 — words added to the user / file dictionary are accepted from then on and never lost.
 //! Correspondence with coq/Model/DictIO.v (extracted) on: load_dict of arbitrary file contents (L), file_dict_name (N),
-//! histories on the real language server incl. restarts and REAL crash points (H), harper_wasm::Linter (W).
+//! histories on the real language server incl. restarts and REAL crash points (H), harper_wasm::Linter (W),
+//! MergedDictionary equality = the test update_document uses to keep or rebuild a document's linter (M).
 //! Search: the property text evaluated on the implementation (see `oracle_*`).
 #[path = "../lsclient.rs"]
 mod lsclient;
 use harper_core::linting::{LintGroup, Linter};
 use harper_core::parsers::{Markdown, PlainEnglish};
-use harper_core::{Dialect, Dictionary, Document, FstDictionary, MutableDictionary, WordId, WordMetadata};
+use harper_core::{Dialect, Dictionary, Document, FstDictionary, MergedDictionary, MutableDictionary, WordId, WordMetadata};
 use hv::common::*;
 use lsclient::*;
 use lsx::dictionary_io::{file_dict_name, load_dict, save_dict};
@@ -288,6 +289,8 @@ enum Op {
     Add(Scope, String),
     /// write the dictionary file with the real save_dict (stands for a sequence of adds)
     Seed(Scope, Vec<String>),
+    /// the dictionary file is written by hand with this exact content (no final newline, CRLF, ...)
+    Raw(Scope, String),
     Lint(usize, String),
     Restart,
     /// the add runs in a child process that is killed on entering the `when`-th `syscall`
@@ -320,6 +323,7 @@ fn hist_json(h: &Hist, origin: &str) -> Value {
         .map(|o| match o {
             Op::Add(s, w) => json!(["add", scope_json(s), w]),
             Op::Seed(s, ws) => json!(["seed", scope_json(s), ws]),
+            Op::Raw(s, c) => json!(["raw", scope_json(s), c]),
             Op::Lint(u, t) => json!(["lint", u, t]),
             Op::Restart => json!(["restart"]),
             Op::Crash(s, w, sc, n) => json!(["crash", scope_json(s), w, sc, n]),
@@ -335,6 +339,7 @@ fn hist_from(v: &Value) -> Option<Hist> {
         match a.first()?.as_str()? {
             "add" => ops.push(Op::Add(scope_from(&a[1]), a[2].as_str()?.to_string())),
             "seed" => ops.push(Op::Seed(scope_from(&a[1]), a[2].as_array()?.iter().filter_map(|x| x.as_str().map(|s| s.to_string())).collect())),
+            "raw" => ops.push(Op::Raw(scope_from(&a[1]), a[2].as_str()?.to_string())),
             "lint" => ops.push(Op::Lint(a[1].as_u64()? as usize, a[2].as_str()?.to_string())),
             "restart" => ops.push(Op::Restart),
             "crash" => ops.push(Op::Crash(scope_from(&a[1]), a[2].as_str()?.to_string(), a[3].as_str()?.to_string(), a[4].as_u64()? as u32)),
@@ -641,9 +646,12 @@ fn run_hist(cx: &mut Cx, rep: &mut Report, h: &Hist, origin: &str) {
                 allwords.insert(w.clone());
                 cx.note_id(w);
                 n_adds += 1;
+                // the file as it is now: the order of its lines is the order in which the hash map iterated
+                let after = dict_path(sc).filter(|_| key_of(sc).is_some()).map(|p| read_obs(&p).0);
+                let tail = after.map(|o| format!(" : {o}")).unwrap_or_default();
                 match sc {
-                    Scope::User => case_ops.push(format!("a : {}", wcps(w))),
-                    Scope::File(i) => case_ops.push(format!("f {} : {}", i, wcps(w))),
+                    Scope::User => case_ops.push(format!("a : {}{}", wcps(w), tail)),
+                    Scope::File(i) => case_ops.push(format!("f {} : {}{}", i, wcps(w), tail)),
                 }
                 impl_ops.push("+".into());
                 if let Some(k) = key_of(sc) {
@@ -653,11 +661,25 @@ fn run_hist(cx: &mut Cx, rep: &mut Report, h: &Hist, origin: &str) {
                     rep.count("hist:add_to_file_dict_of_untitled_document(dropped by the server)");
                 }
             }
-            Op::Seed(sc, ws) => {
-                // "a dictionary file on disk": the file is written by hand, one word per line
+            Op::Seed(..) | Op::Raw(..) => {
+                // "a dictionary file on disk": the file is written by hand, one word per line (Seed), or with
+                // the given content, whose lines are the words (Raw)
+                let (sc, content, ws): (&Scope, String, Vec<String>) = match op {
+                    Op::Seed(sc, ws) => (sc, ws.iter().map(|w| format!("{w}\n")).collect(), ws.clone()),
+                    Op::Raw(sc, c) => {
+                        let mut ws: Vec<String> = vec![];
+                        for l in c.lines() {
+                            if !ws.iter().any(|w| w == l) {
+                                ws.push(l.to_string());
+                            }
+                        }
+                        (sc, c.clone(), ws)
+                    }
+                    _ => unreachable!(),
+                };
+                let ws = &ws;
                 let Some(p) = dict_path(sc) else { continue };
                 let Some(k) = key_of(sc) else { continue };
-                let content: String = ws.iter().map(|w| format!("{w}\n")).collect();
                 if let Some(par) = p.parent() {
                     let _ = std::fs::create_dir_all(par);
                 }
@@ -679,7 +701,7 @@ fn run_hist(cx: &mut Cx, rep: &mut Report, h: &Hist, origin: &str) {
                 for w in ws {
                     add_log.push((oi, k.clone(), w.clone()));
                 }
-                rep.count("hist:dictionary_file_written_by_hand");
+                rep.count(if content.is_empty() || content.ends_with('\n') { "hist:dictionary_file_written_by_hand" } else { "hist:dictionary_file_written_by_hand(no final newline)" });
             }
             Op::Restart => {
                 sess.request("shutdown", Value::Null);
@@ -752,14 +774,16 @@ fn run_hist(cx: &mut Cx, rep: &mut Report, h: &Hist, origin: &str) {
                             let cur = FstDictionary::curated();
                             let tc: Vec<char> = t.chars().collect();
                             let other_dialect = cur.get_word_metadata(&tc).map(|m| !m.dialect.is_none_or(|d| d == Dialect::American)).unwrap_or(false);
-                            let class = if t.chars().any(|c| norm_char(c) != c) {
-                                "added-word-reported:apostrophe"
-                            } else if later_variant {
+                            // (the apostrophe class was FC07a, repaired by ebb53b3: it is no known finding any more and
+                            // comes last, so that an apostrophe word hit by one of the open findings is filed there)
+                            let class = if later_variant {
                                 "added-word-reported:case-collision"
                             } else if cross_variant {
                                 "file-scope-leak"
                             } else if other_dialect {
                                 "added-word-reported:dialect"
+                            } else if t.chars().any(|c| norm_char(c) != c) {
+                                "added-word-reported:apostrophe"
                             } else {
                                 "added-word-reported"
                             };
@@ -843,11 +867,16 @@ fn run_hist(cx: &mut Cx, rep: &mut Report, h: &Hist, origin: &str) {
                 };
                 crashed = true;
                 let (obs, _) = read_obs(&p);
+                // the temporary sibling save_dict writes before renaming it over the dictionary
+                let mut tmp_name = p.file_name().unwrap_or_default().to_os_string();
+                tmp_name.push(".tmp");
+                let (obs_tmp, _) = read_obs(&p.with_file_name(tmp_name));
+                rep.count(if obs_tmp == "n" { "crash:no_tmp_left" } else { "crash:tmp_left_behind(allowed)" });
                 chars.extend(w.chars());
                 allwords.insert(w.clone());
                 match sc {
-                    Scope::User => case_ops.push(format!("k a : {} : {}", wcps(w), obs)),
-                    Scope::File(i) => case_ops.push(format!("k f {} : {} : {}", i, wcps(w), obs)),
+                    Scope::User => case_ops.push(format!("k a : {} : {} : {}", wcps(w), obs, obs_tmp)),
+                    Scope::File(i) => case_ops.push(format!("k f {} : {} : {} : {}", i, wcps(w), obs, obs_tmp)),
                 }
                 impl_ops.push("k1".into());
                 // oracle: a crash may lose at most the word being added
@@ -1082,14 +1111,15 @@ fn run_wasm(cx: &mut Cx, rep: &mut Report, ops: &[WOp], origin: &str) {
                             let cur = FstDictionary::curated();
                             let tc: Vec<char> = t.chars().collect();
                             let other_dialect = cur.get_word_metadata(&tc).map(|m| !m.dialect.is_none_or(|d| d == Dialect::American)).unwrap_or(false);
-                            let class = if t.chars().any(|c| norm_char(c) != c) {
-                                "added-word-reported:apostrophe"
-                            } else if later_variant {
+                            let class = if later_variant {
                                 "added-word-reported:case-collision"
                             } else if earlier_variant {
+                                // was F15-C07-wasm (import_words did not re-synchronise), repaired by ba0a239: no known finding any more
                                 "added-word-reported:wasm-no-resync"
                             } else if other_dialect {
                                 "added-word-reported:dialect"
+                            } else if t.chars().any(|c| norm_char(c) != c) {
+                                "added-word-reported:apostrophe"
                             } else {
                                 "added-word-reported"
                             };
@@ -1136,6 +1166,45 @@ fn baseline_lints_spans(cx: &mut Cx, text: &str) -> Vec<((usize, usize), bool, S
     let mut lints = cx.baseline.lint(&doc);
     harper_core::remove_overlaps(&mut lints);
     lints.into_iter().map(|l| ((l.span.start, l.span.end), l.lint_kind.is_spelling(), l.message)).collect()
+}
+
+// ------------------------------------------------------------------------------------------------
+//  M: MergedDictionary equality (child hashes) — what update_document uses to keep or rebuild a linter
+// ------------------------------------------------------------------------------------------------
+fn merged_of(ws: &[String]) -> (MergedDictionary, Vec<String>) {
+    let mut d = MutableDictionary::new();
+    d.extend_words(ws.iter().map(|w| (w.chars().collect::<Vec<char>>(), WordMetadata::default())));
+    let mut words = words_of(&d);
+    words.sort();
+    let mut m = MergedDictionary::new();
+    m.add_dictionary(FstDictionary::curated());
+    m.add_dictionary(Arc::new(d));
+    (m, words)
+}
+fn run_merge(cx: &mut Cx, rep: &mut Report, a: &[String], b: &[String], origin: &str) {
+    rep.eval();
+    let inp = json!({"kind": "merge", "a": a, "b": b, "origin": origin});
+    let (ma, wa) = merged_of(a);
+    let (mb, wb) = merged_of(b);
+    let eq = ma == mb;
+    let mut chars: BTreeSet<char> = BTreeSet::new();
+    for w in a.iter().chain(b.iter()) {
+        chars.extend(w.chars());
+        cx.note_id(w);
+    }
+    rep.case(&format!("M {} | {} | {}", ctable(&chars), words_field(a), words_field(b)), if eq { "1" } else { "0" });
+    rep.nontrivial(&format!("{:?}|{:?}", a, b));
+    rep.count(if wa == wb { "merge:same_dictionary" } else { "merge:different_dictionaries" });
+    if eq && wa != wb {
+        rep.fail(
+            "added-word-reported:stale-linter",
+            format!("the dictionaries {:?} and {:?} are different but their MergedDictionary compare equal (same child hashes): update_document keeps the linter built with the old one", wa, wb),
+            inp,
+        );
+    } else if !eq && wa == wb {
+        // harmless for the property (a linter is rebuilt although nothing changed); the correspondence reports it
+        rep.count("merge:equal_dictionaries_compare_different");
+    }
 }
 
 // ------------------------------------------------------------------------------------------------
@@ -1220,20 +1289,52 @@ fn gen_pool(r: &mut Rng) -> Vec<String> {
     pool
 }
 
-const URL_POOL: &[&str] = &["f:a/b.txt", "f:a/c.txt", "f:c/b.txt", "f:b.txt", "f:notes.txt", "f:dir with space/x.txt", "f:ünï/çödé.txt", "f:a%b.txt", "f:a/b%c.txt", "f:a/b.txt%", "f:100%/done.txt", "u:Untitled-1"];
+const URL_POOL: &[&str] = &[
+    "f:a/b.txt", "f:a/c.txt", "f:c/b.txt", "f:b.txt", "f:notes.txt", "f:Notes.txt", "f:A/b.txt", "f:dir with space/x.txt", "f:ünï/çödé.txt", "f:ÜNÏ/çödé.txt", "f:a%b.txt", "f:a/b%c.txt",
+    "f:a/b.txt%", "f:100%/done.txt", "u:Untitled-1",
+];
+/// (url, a url that differs from it only in letter case): distinct files on a case-sensitive file system
+const CASE_TWINS: &[(&str, &str)] = &[("f:notes.txt", "f:Notes.txt"), ("f:a/b.txt", "f:A/b.txt"), ("f:ünï/çödé.txt", "f:ÜNÏ/çödé.txt"), ("f:b.txt", "f:B.TXT")];
 
 fn gen_hist(r: &mut Rng, crash: bool, malformed: bool) -> Hist {
     let pool = gen_pool(r);
     let mut urls: Vec<String> = vec![];
     let nu = r.range(1, 3);
     while urls.len() < nu {
-        let u = if r.chance(1, 6) && urls.iter().any(|u| u == "f:a/b.txt") { "f:a%b.txt".to_string() } else { r.s(URL_POOL).to_string() };
+        let twin = urls.iter().find_map(|u| CASE_TWINS.iter().find(|(a, _)| a == u).map(|(_, b)| b.to_string()));
+        let u = if r.chance(1, 6) && urls.iter().any(|u| u == "f:a/b.txt") {
+            "f:a%b.txt".to_string()
+        } else if r.chance(1, 5) && twin.is_some() {
+            twin.unwrap()
+        } else {
+            r.s(URL_POOL).to_string()
+        };
         if !urls.contains(&u) {
             urls.push(u);
         }
     }
     let lang = if r.chance(1, 6) { "markdown" } else { "plaintext" }.to_string();
     let mut ops = vec![];
+    let mut pool = pool;
+    if r.chance(1, 4) {
+        // a dictionary file that was on disk before the server ever ran: written by another tool, possibly
+        // without a final newline or with CRLF line ends
+        let mut ws: Vec<String> = vec![];
+        for _ in 0..r.range(1, 3) {
+            let w = made_up(r);
+            if !ws.iter().any(|x| real_id(x) == real_id(&w)) && !pool.iter().any(|x| real_id(x) == real_id(&w)) {
+                ws.push(w);
+            }
+        }
+        let sep = if r.chance(1, 4) { "\r\n" } else { "\n" };
+        let mut content = ws.join(sep);
+        if r.chance(1, 2) {
+            content.push_str(sep);
+        }
+        let sc = if r.chance(2, 3) { Scope::User } else { Scope::File(r.below(urls.len())) };
+        ops.push(Op::Raw(sc, content));
+        pool.extend(ws);
+    }
     for ui in 0..urls.len() {
         if r.chance(2, 3) {
             ops.push(Op::Lint(ui, fill(r.s(TEMPLATES), &pool, r)));
@@ -1336,7 +1437,7 @@ fn gen_content(r: &mut Rng) -> String {
     s
 }
 fn gen_path(r: &mut Rng) -> String {
-    let segs: &[&str] = &["a", "b", "a%b", "%", "a%", "%b", ".", "..", "", "x y", "ü", "c.txt", "%25", "a%2Fb", "日本"];
+    let segs: &[&str] = &["a", "b", "A", "B", "a%b", "A%b", "%", "a%", "%b", ".", "..", "", "x y", "ü", "Ü", "c.txt", "C.txt", "c.TXT", "%25", "a%2Fb", "日本", "ǆ", "ǅ"];
     let mut s = String::new();
     for _ in 0..r.range(1, 5) {
         s.push('/');
@@ -1348,10 +1449,11 @@ fn gen_path(r: &mut Rng) -> String {
     s
 }
 
-/// FC07f probe (outside the correspondence: the model re-reads the disk on every check and has no linter cache).
-/// MergedDictionary compares children by a hash of their words' characters WITHOUT separators, in hash-map order;
-/// {aA, A} and {Aa, A} can both hash the stream "AaA".  When they do, update_document keeps the old linter and the
-/// word just added stays reported until the server restarts.  Coq: C07_merge_rebuild_same_id_refuted.
+/// FC07f regression probe (repaired by f2dc537; the same history also runs through the correspondence, whose model
+/// has the per-document linter cache).  MergedDictionary used to compare children by a hash of their words'
+/// characters WITHOUT separators, in hash-map order; {aA, A} and {Aa, A} could both hash the stream "AaA": then
+/// update_document kept the old linter and the word just added stayed reported until the server restarted
+/// (nondeterministic: 6 of 40 rounds).  Coq: C07_merge_rebuild, C07_cache_transparent; C07_merge_rebuild_old_refuted.
 fn probe_stale(cx: &mut Cx, rep: &mut Report, rounds: u64, origin: &str) {
     let mut stale = 0u64;
     let text = "Here aA and Aa are.";
@@ -1397,7 +1499,7 @@ fn probe_stale(cx: &mut Cx, rep: &mut Report, rounds: u64, origin: &str) {
     if stale > 0 {
         rep.fail(
             "added-word-reported:stale-linter",
-            format!("user dictionary {{aA, A}}, document open, add \"Aa\": in {stale} of {rounds} rounds \"Aa\" is still reported by the next check of the open document and accepted after a restart (child hash over the unseparated stream \"AaA\" did not change, the linter was not rebuilt)"),
+            format!("user dictionary {{aA, A}}, document open, add \"Aa\": in {stale} of {rounds} rounds \"Aa\" is still reported by the next check of the open document and accepted after a restart (the child hashes did not change, the linter was not rebuilt)"),
             json!({"kind": "stale-linter", "rounds": rounds, "origin": origin}),
         );
     }
@@ -1420,6 +1522,10 @@ fn run_input(cx: &mut Cx, rep: &mut Report, v: &Value, origin: &str) {
             }
         }
         "stale-linter" => probe_stale(cx, rep, v["rounds"].as_u64().unwrap_or(40), origin),
+        "merge" => {
+            let get = |k: &str| -> Vec<String> { v[k].as_array().map(|a| a.iter().filter_map(|x| x.as_str().map(|s| s.to_string())).collect()).unwrap_or_default() };
+            run_merge(cx, rep, &get("a"), &get("b"), origin)
+        }
         "wasm" => {
             if let Some(ops) = wasm_from(v) {
                 run_wasm(cx, rep, &ops, origin)
@@ -1437,7 +1543,7 @@ fn main() {
     }
     let (args, corpus) = hv::cli();
     let mut rep = Report::new(&args.out);
-    rep.rule = "histories of add-to-user-dictionary / add-to-file-dictionary / check-a-document / restart on the real harper-ls Backend (1-3 documents incl. percent-named and untitled ones; made-up stems with case variants, non-ASCII and apostrophe words, curated words of another dialect; a malformed stream of non-words incl. LF/CR); real crash points (the add runs in a child killed by strace on entering the N-th openat/write/mkdir); load_dict on arbitrary file contents; file_dict_name on generated paths; harper_wasm::Linter import_words/lint/export_words histories. non-trivial = distinct history / file content / path".into();
+    rep.rule = "histories of add-to-user-dictionary / add-to-file-dictionary / check-a-document / restart on the real harper-ls Backend (1-3 documents incl. percent-named, case-twin and untitled ones; dictionary files written by other tools, with and without a final newline / CRLF; made-up stems with case variants, non-ASCII and apostrophe words, curated words of another dialect; a malformed stream of non-words incl. LF/CR); real crash points (the add runs in a child killed by strace on entering the N-th openat/write/mkdir/fsync/rename; the dictionary file AND its .tmp sibling are examined); load_dict on arbitrary file contents; file_dict_name on generated paths; harper_wasm::Linter import_words/lint/export_words histories; MergedDictionary equality on pairs of dictionaries. non-trivial = distinct history / file content / path / pair".into();
     let mut cx = Cx::new(&args);
     for v in &corpus {
         run_input(&mut cx, &mut rep, v, "corpus");
@@ -1538,6 +1644,41 @@ fn main() {
         for i in 0..args.scale(60, 600) {
             let ops = gen_wasm(&mut r, i % 5 == 4);
             run_wasm(&mut cx, &mut rep, &ops, "gen");
+        }
+        // M: every pair of dictionaries over a small universe chosen so that concatenations coincide
+        // ({aa, a} / {aaa}, {ab, c} / {a, bc} / {abc}, {aA, A} / {Aa, A}), incl. the empty word
+        let universe: Vec<&str> = if args.thorough() { vec!["a", "aa", "aaa", "A", "aA", "Aa", ""] } else { vec!["a", "aa", "aaa", "aA", "Aa", ""] };
+        let subsets: Vec<Vec<String>> = (0..(1usize << universe.len())).map(|m| (0..universe.len()).filter(|i| m >> i & 1 == 1).map(|i| universe[i].to_string()).collect()).collect();
+        for a in &subsets {
+            for b in &subsets {
+                run_merge(&mut cx, &mut rep, a, b, "sweep-merge");
+            }
+        }
+        for _ in 0..args.scale(200, 2000) {
+            // random word lists incl. repeated words and other spellings of the same id, in random order
+            let pool = gen_pool(&mut r);
+            let mut a: Vec<String> = (0..r.range(0, 5)).map(|_| pool[r.below(pool.len())].clone()).collect();
+            let b: Vec<String> = match r.below(3) {
+                0 => {
+                    let mut b = a.clone();
+                    b.reverse();
+                    b
+                }
+                1 => {
+                    // glue two words / split one
+                    let mut b = a.clone();
+                    if b.len() >= 2 {
+                        let x = b.remove(0);
+                        b[0] = format!("{x}{}", b[0]);
+                    }
+                    b
+                }
+                _ => (0..r.range(0, 5)).map(|_| pool[r.below(pool.len())].clone()).collect(),
+            };
+            if r.chance(1, 2) {
+                a.reverse();
+            }
+            run_merge(&mut cx, &mut rep, &a, &b, "gen-merge");
         }
     }
     // ---- hypothesis monitors ----
